@@ -697,7 +697,7 @@ func simVariant() (v string) {
 		v += "p"
 	}
 	e.Fini()
-	// sixth letter: CellBuffer.Fill stores width 0 for a zero-width rune (fixes/C09-fill-zero-width.patch)
+	// sixth letter: CellBuffer.Fill stores a blank for a zero-width rune (fixes/C09-fill-zero-width.patch)
 	if fillZWSuffix() != "" {
 		v += "r"
 	} else {
